@@ -47,3 +47,135 @@ def _rows_sampler(rng):
 
 
 c_rows.sampler = _rows_sampler
+
+
+# ------------------------------------------------------------------ bounded: expand / collapse / concat_collocations on real xarray data
+def _compact(nprng, rng, n1, n2, npairs, channels=3):
+    """a compact collocation dataset built directly: every stored point takes part in at least one pair"""
+    import xarray as xr
+    p0 = list(range(n1)) + [rng.randrange(n1) for _ in range(max(0, npairs - n1))]
+    p1 = list(range(n2)) + [rng.randrange(n2) for _ in range(max(0, npairs - n2))]
+    while len(p0) < len(p1):
+        p0.append(rng.randrange(n1))
+    while len(p1) < len(p0):
+        p1.append(rng.randrange(n2))
+    rng.shuffle(p0)
+    rng.shuffle(p1)
+    pairs = sorted(set(zip(p0, p1)), key=lambda _: rng.random())           # unsorted, each pair once
+    for i in range(n1):                                                      # (re-)cover every stored point
+        if i not in {a for a, _ in pairs}:
+            pairs.append((i, rng.randrange(n2)))
+    for j in range(n2):
+        if j not in {b for _, b in pairs}:
+            pairs.append((rng.randrange(n1), j))
+    pairs = _np.array(pairs, dtype=int).T
+    n = pairs.shape[1]
+    t0 = _np.datetime64("2020-01-01T00:00:00", "ns")
+
+    def group(name, k):
+        x = nprng.normal(size=k)
+        if k > 1 and rng.random() < 0.5:
+            x[rng.randrange(k)] = _np.nan
+        return {name + "/time": (name + "/collocation", t0 + (nprng.uniform(0, 100, size=k) * 1e9).astype("int64").astype("timedelta64[ns]")),
+                name + "/lat": (name + "/collocation", nprng.uniform(-80, 80, size=k)),
+                name + "/lon": (name + "/collocation", nprng.uniform(-170, 170, size=k)),
+                name + "/x": (name + "/collocation", x),
+                name + "/bt": ((name + "/collocation", name + "/channel"), nprng.normal(size=(k, channels)))}
+    d = {}
+    d.update(group("A", n1))
+    d.update(group("B", n2))
+    d["Collocations/pairs"] = (("Collocations/group", "Collocations/collocation"), pairs)
+    d["Collocations/interval"] = ("Collocations/collocation", nprng.randint(0, 100, size=n).astype("timedelta64[s]"))
+    d["Collocations/distance"] = ("Collocations/collocation", nprng.uniform(0, 5, size=n))
+    d["Collocations/group"] = ("Collocations/group", _np.array(["A", "B"]))
+    return xr.Dataset(d)
+
+
+def _same(a, b):
+    a, b = _np.asarray(a), _np.asarray(b)
+    if a.shape != b.shape:
+        return False
+    if a.dtype.kind in "mM" or b.dtype.kind in "mM":
+        return bool((a == b).all())
+    return bool(_np.allclose(a, b, rtol=1e-9, atol=1e-12, equal_nan=True))
+
+
+@bounded(P, "expand-collapse-concat", "compact collocation datasets built directly (1..12 stored points per group, 1..40 pairs, one-to-many and "
+         "many-to-one, unsorted pairs, a channel dimension, NaNs, one dataset with more than 1000 pairs in the thorough tier), either group "
+         "as reference, lists of 1..4 datasets to concatenate; oracle: the definitions in the property statement; 40 (quick) / 300 (thorough) rounds")
+def bounded_ecc(rng, tier):
+    import warnings
+    from typhon.collocations import collapse, expand
+    from typhon.collocations.collocator import concat_collocations
+    rounds = 40 if tier == "quick" else 300
+    evals, failures, samples, distinct = 0, [], [], set()
+
+    def expanded_rows(ds):
+        p = ds["Collocations/pairs"].values
+        out = {}
+        for v in ("time", "lat", "lon", "x", "bt"):
+            out["A/" + v] = ds["A/" + v].values[p[0]]
+            out["B/" + v] = ds["B/" + v].values[p[1]]
+        out["Collocations/interval"] = ds["Collocations/interval"].values
+        out["Collocations/distance"] = ds["Collocations/distance"].values
+        return out
+    for r in range(rounds):
+        nprng = _np.random.RandomState(rng.randint(0, 2**31 - 1))
+        big = tier != "quick" and r == 0
+        sets = [_compact(nprng, rng, rng.randint(1, 12), rng.randint(1, 12), 1100 if big else rng.randint(1, 40)) for _ in range(rng.randint(1, 4))]
+        with warnings.catch_warnings():
+            warnings.simplefilter("ignore")
+            # expand: one row per pair carrying the values of that pair
+            ds = sets[0]
+            evals += 1
+            distinct.add((r, "expand"))
+            try:
+                ex = expand(ds.copy(deep=True))
+                want = expanded_rows(ds)
+                bad = [k for k, v in want.items() if k not in ex.variables or not _same(ex[k].values, v)]
+                if bad:
+                    failures.append({"round": r, "check": "expand", "problem": "rows differ for %s" % bad[:3], "pairs": ds["Collocations/pairs"].values.tolist()[:1]})
+            except Exception as exc:
+                failures.append({"round": r, "check": "expand", "problem": "exception %r" % (exc,)})
+            # collapse: one row per reference point with nan-ignoring mean / std / count over its partners
+            for ref, oth, ri in (("A", "B", 0), ("B", "A", 1), (None, "B", 0)):
+                evals += 1
+                distinct.add((r, "collapse", ref))
+                try:
+                    col = collapse(ds.copy(deep=True), reference=ref)
+                    p = ds["Collocations/pairs"].values
+                    nref = ds[("A" if ri == 0 else "B") + "/x"].size
+                    probs = []
+                    for var in ("x", "bt"):
+                        vals = ds[oth + "/" + var].values
+                        for q in range(nref):
+                            part = vals[p[1 - ri][p[ri] == q]]
+                            with _np.errstate(all="ignore"):
+                                m, s, c = _np.nanmean(part, axis=0), _np.nanstd(part, axis=0), _np.count_nonzero(~_np.isnan(part), axis=0)
+                            if not (_same(col["%s/%s_mean" % (oth, var)].values[q], m) and _same(col["%s/%s_std" % (oth, var)].values[q], s)
+                                    and _same(col["%s/%s_number" % (oth, var)].values[q], c)):
+                                probs.append((var, q))
+                    if col["lat"].size != nref or not _same(col["lat"].values, ds[("A" if ri == 0 else "B") + "/lat"].values):
+                        probs.append("reference rows")
+                    if probs:
+                        failures.append({"round": r, "check": "collapse(reference=%r)" % ref, "problem": "statistics differ at %s" % probs[:3]})
+                except Exception as exc:
+                    failures.append({"round": r, "check": "collapse(reference=%r)" % ref, "problem": "exception %r" % (exc,)})
+            # concat: expands to the concatenation of the expansions
+            evals += 1
+            distinct.add((r, "concat", len(sets)))
+            try:
+                parts = [expanded_rows(s) for s in sets]
+                cat = concat_collocations([s.copy(deep=True) for s in sets])
+                got = expanded_rows(cat)
+                bad = [k for k in got if not _same(got[k], _np.concatenate([pt[k] for pt in parts], axis=0))]
+                p = cat["Collocations/pairs"].values
+                if p.min() < 0 or p[0].max() >= cat["A/x"].size or p[1].max() >= cat["B/x"].size:
+                    bad.append("pair indices out of range")
+                if bad:
+                    failures.append({"round": r, "check": "concat of %d" % len(sets), "problem": "expand(concat) differs from concat(expand) for %s" % bad[:3]})
+                elif len(samples) < 3:
+                    samples.append({"round": r, "datasets": len(sets), "pairs": [int(s["Collocations/pairs"].shape[1]) for s in sets]})
+            except Exception as exc:
+                failures.append({"round": r, "check": "concat of %d" % len(sets), "problem": "exception %r" % (exc,)})
+    return {"evaluations": evals, "distinct_nontrivial": len(distinct), "failures": failures[:5], "samples": samples}
